@@ -97,6 +97,7 @@ pub fn record_bot(opts: &Opts) -> i32 {
     let tags = opts.str("tags", "");
     let mut out = std::io::BufWriter::new(std::fs::File::create(opts.str("out", "bot.ndjson")).unwrap());
     let mut rng = rng(seed, 1500 + shard);
+    set_pending_file(Some(format!("{}.pending", opts.str("out", "bot.ndjson"))));
     let path = plugin_path();
     let api = match chess_api::ChessApiRef::load_from_file(&path) {
         Ok(a) => a,
@@ -105,7 +106,14 @@ pub fn record_bot(opts: &Opts) -> i32 {
             return 2;
         }
     };
+    if mode == "match" {
+        return record_match(opts, &api, &roots);
+    }
     let mut engine = api.new_engine();
+    // the move the plugin proposed last, and whether the board was set since (a client may submit a
+    // proposal made for another position)
+    let mut last_prop: Option<ChessMove> = None;
+    let mut after_set = false;
     let sel: Vec<&Value> = roots.as_array().unwrap().iter()
         .filter(|r| tags.is_empty() || r["tags"].as_array().unwrap().iter().any(|x| tags.split(',').any(|s| x == s)))
         .collect();
@@ -123,6 +131,7 @@ pub fn record_bot(opts: &Opts) -> i32 {
         let Ok(root) = fen.parse::<Board>() else { continue };
         op!("record-bot set_board {fen}");
         engine.set_board(root);
+        after_set = true;
         writeln!(out, "{}", json!({"ev": "set_board", "arg": pos_json(&root), "board": pos_json(&engine.board())})).unwrap();
         events += 1;
         let mut prev: Vec<ChessMove> = vec![];
@@ -139,7 +148,11 @@ pub fn record_bot(opts: &Opts) -> i32 {
             // choose a move: an illegal attempt, the inverse of an earlier move (to repeat
             // positions), a quiet piece move, or any legal move
             let roll = rng.gen_range(0..100);
-            let c = if mode != "long" && roll < 8 {
+            let stale = mode != "long" && last_prop.is_some() && ((after_set && rng.gen_bool(0.5)) || roll < 2);
+            after_set = false;
+            let c = if stale {
+                code(last_prop.unwrap())
+            } else if mode != "long" && roll < 8 {
                 rng.gen_range(0..20480u32)
             } else if mode == "long" {
                 // knights out and back: g1f3 g8f6 f3g1 f6g8 ... (the same four plies for ever)
@@ -174,16 +187,53 @@ pub fn record_bot(opts: &Opts) -> i32 {
             // the plugin aborts the process if it panics (FFI boundary): keep the trace on disk
             out.flush().unwrap();
             events += 1;
+            let mut after_eval = false;
             if mode != "long" && rng.gen_range(0..40) == 0 {
+                after_eval = true;
                 // evaluate under a counting limit: the proposal must be legal, the board unchanged
                 let k = rng.gen_range(0..400);
                 op!("record-bot evaluate k={k} on {}", engine.board());
                 let t = CountingTimeout::at(k);
                 let (mv, sc) = engine.evaluate(&t);
+                if mv.is_some() {
+                    last_prop = mv;
+                }
                 calls += 1;
                 writeln!(out, "{}", json!({"ev": "evaluate", "k": k, "mv": mv.map_or(-1i64, |m| code(m) as i64), "score": score_json(sc),
                                            "board": pos_json(&engine.board())})).unwrap();
                 events += 1;
+            }
+            if mode == "long" && (ply % 100 == 99 || ply + 1 == plies) {
+                // a search on top of a long history: every position of the cycle has been counted
+                // ply/4 times by now (beyond the 255 a u8 counter can hold near the end)
+                op!("record-bot evaluate after {ply} plies of shuffling on {}", engine.board());
+                let t = CountingTimeout::at(200);
+                let (mv, sc) = engine.evaluate(&t);
+                calls += 1;
+                writeln!(out, "{}", json!({"ev": "evaluate", "k": 200, "mv": mv.map_or(-1i64, |m| code(m) as i64), "score": score_json(sc),
+                                           "board": pos_json(&engine.board())})).unwrap();
+                events += 1;
+            }
+            if mode != "long" && after_eval && rng.gen_range(0..3) == 0 {
+                // a client that asks for a proposal, then sets up another position and submits the
+                // proposal there: it must be judged in the position the plugin now holds
+                let r2 = sel[rng.gen_range(0..sel.len())];
+                if let (Ok(other), Some(mv)) = (r2["fen"].as_str().unwrap().parse::<Board>(), last_prop) {
+                    op!("record-bot set_board (another position after a proposal) {other}");
+                    engine.set_board(other);
+                    prev.clear();
+                    writeln!(out, "{}", json!({"ev": "set_board", "arg": pos_json(&other), "board": pos_json(&engine.board())})).unwrap();
+                    op!("record-bot make_move {mv} (proposed for another position) on {other}");
+                    let res = engine.make_move(mv);
+                    calls += 1;
+                    if res.is_valid {
+                        prev.push(mv);
+                    }
+                    writeln!(out, "{}", json!({"ev": "make_move", "mv": code(mv), "valid": res.is_valid, "flag": res.is_three_fold_draw,
+                                               "board": pos_json(&engine.board())})).unwrap();
+                    out.flush().unwrap();
+                    events += 2;
+                }
             }
             if mode != "long" && rng.gen_range(0..30) == 0 {
                 // set the board again in the middle of a history: to the very position the plugin
@@ -203,6 +253,7 @@ pub fn record_bot(opts: &Opts) -> i32 {
                 };
                 op!("record-bot set_board (again) {arg}");
                 engine.set_board(arg);
+                after_set = true;
                 prev.clear();
                 writeln!(out, "{}", json!({"ev": "set_board", "arg": pos_json(&arg), "board": pos_json(&engine.board())})).unwrap();
                 events += 1;
@@ -219,7 +270,117 @@ pub fn record_bot(opts: &Opts) -> i32 {
         }
     }
     out.flush().unwrap();
+    op!("done");
     out_line("SUMMARY", &json!({"counts": {"events": events, "calls": calls, "flags_raised": flags}, "distinct": calls, "nontrivial": flags,
                                 "mismatches": 0, "samples": [], "extra": {}}));
+    0
+}
+
+/// The tournament game loop of chess-cli (bot_fight.rs), transcribed: two plugin instances, one per
+/// player; the instance whose colour is to move proposes, the move is submitted to both, the game
+/// ends on the threefold flag, on "no move proposed", or on what Board::state() says.  The proposals
+/// come from the engine under a counting limit, so the positions are those of real engine play
+/// (mates, promotions, endgames) rather than of random walks.  One `result` event per ply records
+/// the loop's verdict ("running" while the game goes on).
+fn record_match(opts: &Opts, api: &chess_api::ChessApiRef, roots: &Value) -> i32 {
+    use crate::engineplay::CountingTimeout;
+    use chess_bitboard::Color;
+    use chess_movegen::GameState;
+    let seed = opts.num("seed", 1);
+    let shard = opts.num("shard", 0);
+    let budget = opts.num("events", 3000);
+    let kmax = opts.num("kmax", 1500);
+    let tags = opts.str("tags", "std");
+    let mut out = std::io::BufWriter::new(std::fs::File::create(opts.str("out", "match.ndjson")).unwrap());
+    let mut rng = rng(seed, 1700 + shard);
+    let sel: Vec<&Value> = roots.as_array().unwrap().iter()
+        .filter(|r| tags.is_empty() || r["tags"].as_array().unwrap().iter().any(|x| tags.split(',').any(|s| x == s)))
+        .collect();
+    let (mut events, mut calls, mut flags, mut games, mut mates, mut draws) = (0u64, 0u64, 0u64, 0u64, 0u64, 0u64);
+    let mut g = 0u64;
+    while events < budget {
+        let r = sel[((g + shard * 5) as usize) % sel.len()];
+        g += 1;
+        let fen = r["fen"].as_str().unwrap();
+        let Ok(root) = fen.parse::<Board>() else { continue };
+        let mut a = api.new_engine();
+        let mut b = api.new_engine();
+        for (id, e) in [(0, &a), (1, &b)] {
+            writeln!(out, "{}", json!({"ev": "fresh", "id": id, "board": pos_json(&e.board())})).unwrap();
+        }
+        op!("record-match set_board {fen}");
+        a.set_board(root);
+        b.set_board(root);
+        for (id, e) in [(0, &a), (1, &b)] {
+            writeln!(out, "{}", json!({"ev": "set_board", "id": id, "arg": pos_json(&root), "board": pos_json(&e.board())})).unwrap();
+        }
+        events += 4;
+        games += 1;
+        // a few random opening plies so that games from the same root differ
+        let opening = rng.gen_range(0..6);
+        let mut ply = 0u32;
+        loop {
+            let turn = a.board().turn();
+            let id = if turn == Color::White { 0 } else { 1 };
+            let proposal = if ply < opening {
+                let legals = legal_codes(&a.board());
+                legals.choose(&mut rng).map(|&c| decode(c))
+            } else {
+                // mostly a limit that lets a few passes finish; now and then one that may expire at once
+                let k = if rng.gen_range(0..200) == 0 { rng.gen_range(0..40) } else { rng.gen_range(kmax / 10..kmax) };
+                op!("record-match evaluate id={id} k={k} on {}", a.board());
+                let t = CountingTimeout::at(k);
+                let (mv, sc) = if id == 0 { a.evaluate(&t) } else { b.evaluate(&t) };
+                calls += 1;
+                let bd = if id == 0 { a.board() } else { b.board() };
+                writeln!(out, "{}", json!({"ev": "evaluate", "id": id, "k": k, "mv": mv.map_or(-1i64, |m| code(m) as i64), "score": score_json(sc),
+                                           "board": pos_json(&bd)})).unwrap();
+                events += 1;
+                mv
+            };
+            ply += 1;
+            let Some(mv) = proposal else {
+                writeln!(out, "{}", json!({"ev": "result", "kind": "didnt_move", "winner": ""})).unwrap();
+                events += 1;
+                break;
+            };
+            op!("record-match make_move {mv} on {} (ply {ply})", a.board());
+            let ra = a.make_move(mv);
+            writeln!(out, "{}", json!({"ev": "make_move", "id": 0, "mv": code(mv), "valid": ra.is_valid, "flag": ra.is_three_fold_draw,
+                                       "board": pos_json(&a.board())})).unwrap();
+            let rb = b.make_move(mv);
+            writeln!(out, "{}", json!({"ev": "make_move", "id": 1, "mv": code(mv), "valid": rb.is_valid, "flag": rb.is_three_fold_draw,
+                                       "board": pos_json(&b.board())})).unwrap();
+            out.flush().unwrap();
+            calls += 2;
+            events += 3;
+            if ra.is_three_fold_draw {
+                flags += 1;
+            }
+            // the loop's verdict, in the loop's order
+            let (kind, winner) = if ra.is_three_fold_draw {
+                ("threefold", "")
+            } else {
+                match a.board().state() {
+                    GameState::CheckMate => ("checkmate", if turn == Color::White { "w" } else { "b" }),
+                    GameState::StaleMate => ("draw", ""),
+                    GameState::Check | GameState::Running => ("running", ""),
+                }
+            };
+            writeln!(out, "{}", json!({"ev": "result", "kind": kind, "winner": winner})).unwrap();
+            match kind {
+                "checkmate" => mates += 1,
+                "draw" | "threefold" => draws += 1,
+                _ => {}
+            }
+            if kind != "running" || ply > 400 || events >= budget {
+                break;
+            }
+        }
+    }
+    out.flush().unwrap();
+    op!("done");
+    out_line("SUMMARY", &json!({"counts": {"events": events, "calls": calls, "flags_raised": flags, "games": games, "mates": mates, "draws": draws},
+                                "distinct": calls, "nontrivial": flags + mates + draws, "mismatches": 0, "samples": [], "extra": {}}));
     0
 }
